@@ -19,18 +19,24 @@ LEVEL_TEXT = ("Decides, for every declaration at once (the analysis is of the ge
               "new_for_types build every field but `handler` from the same sources with the declared defaults; (R5) the macro's MIME strings and methods are accepted by from_mime_type / gen_openapi's slot "
               "table; (R6) gen_openapi copies summary/description/tags/deprecated/operation_id from the same-named endpoint fields, on the visible edge only, into the slot chosen by that endpoint's method; "
               "(R7) `..`/`a..`/`..b`/`a..b` parse to All/From/Until/FromUntil with operands in source order, literal pairs are refused iff until < earliest, and each kind emits the matching "
-              "ApiEndpointVersions constructor with bounds in (earliest, until) order; (R8) summary and description are cut from one stream of the item's doc lines and no accumulation step (fold closure or loop body) drops text. "
-              "The rules read data flow and branch conditions, not statement shapes: helpers split off a decided function are inlined first; iterator chain / for loop, Option::map / if let / `?`, "
-              "bool::then / if-else, unwrap_or / map_or / match, early return / if-else and to_string / to_owned / String::from are decided alike. "
+              "ApiEndpointVersions constructor with bounds in (earliest, until) order; (R8) summary and description are cut from one stream of the item's doc lines and no accumulation step (fold closure, loop body reassigning the accumulator, "
+              "or loop body appending to it in place) drops text. "
+              "The rules read data flow and branch conditions, not statement shapes: helpers split off a decided function are inlined first; R1's callers and R2a's validate are read on the normalised view "
+              "(Option/Result combinators = their defining match, closure bodies spliced into the caller); iterator chain / for loop, Option::map / if let / `?`, "
+              "bool::then / if-else, unwrap_or / map_or / match, early return / if-else, to_string / to_owned / String::from, and six interpolations / one repetition over their chain are decided alike; "
+              "parse_semver (R7) and dropshot's from_mime_type (R5) are decided by abstract interpretation over every outcome of their stubbed leaves, whatever their control structure. "
               "Residue: the per-line string surgery of ExtractedDoc::from_attrs / normalize_comment_string (trimming, `*` prefixes, paragraph breaks), agreement of the trait stub's extractor-type list with "
               "the real handler's argument types, serde's derive mapping attribute names to EndpointMetadata fields, rustc's own type-checking of the emitted tokens, routing by method/path/versions "
               "(C01/C02/C05) and the body limit's enforcement (C11).")
 LEVEL_NOTE = ("Trusted base: rustc MIR construction, the extractor, the engine's inlining of unlisted helpers, rules/lib_c19.py (quote! template evaluator, ~1100 lines), semantics of quote's push_*/ToTokens, "
-              "the evaluator's summaries of Option::map/map_or, bool::then, Iterator::map, `?` on Option/Result, and of a vector filled by one push per iteration of a `for` loop (= map+collect); "
+              "the evaluator's summaries of Option::map/map_or, bool::then, Iterator::map, Iterator::chain under a repetition, `?` on Option/Result, of a vector filled by one push per iteration of a `for` loop (= map+collect) "
+              "and of a String only appended to after its initialisation; rules/absint.py and lib_c07.decide_string_tables (interpreter used for parse_semver / from_mime_type; when a function leaves its fragment the rule "
+              "falls back to path facts and says so in the notes); the engine's combinator desugaring (normalised view); "
               "format_ident!'s template is checked only for absence of literal text.")
 EXPLANATION = ("TABLE/SIBLINGS-AGREE/WHO-CALLS rules over symbolic token templates recovered from the MIR of dropshot_endpoint (each instance = one emitted call argument, builder call, struct field, "
                "caller argument or table row) plus CHAIN/SHAPE rules over ApiEndpoint's constructors, builder methods and gen_openapi in dropshot.")
 TRUSTED = ["rustc nightly MIR + const evaluation", "mirfacts extractor", "rules/lib_c19.py quote! template evaluator", "quote/proc_macro2 token push semantics",
+           "rules/absint.py interpreter + std Option/Result/Iterator::find summaries", "engine normalised view (combinator desugaring, helper inlining)",
            "serde derive for EndpointMetadata/ChannelMetadata (attribute name = field name)", "rustc type-checks the emitted call against ApiEndpoint's signatures"]
 
 PRODUCER = r"^metadata::ValidatedEndpointMetadata::to_api_endpoint_fn$"
@@ -53,7 +59,7 @@ def cap(s, n=260):
 def _q(ctx, which="ep", inline=True):
     key = "c19q:%s:%s" % (which, inline)
     if key not in ctx.extra:
-        ctx.extra[key] = Q.QuoteEval(ctx.ep if which == "ep" else ctx.ds, inline_depth=4 if inline else 0)
+        ctx.extra[key] = Q.QuoteEval({"ep": ctx.ep, "epn": ctx.epn, "ds": ctx.ds, "dsn": ctx.dsn}[which], inline_depth=4 if inline else 0)
     return ctx.extra[key]
 
 
@@ -140,7 +146,7 @@ def _str_lits(fn):
 
 def _role_args(ctx, R, q, f, t):
     """Arguments of a call to one of the two to_api_endpoint_fn, keyed by the callee's parameter roles."""
-    callee = ctx.ep.one("^" + re.escape(t.get("callee") or "?") + "$")
+    callee = ctx.epn.one("^" + re.escape(t.get("callee") or "?") + "$")
     roles = _roles(ctx, R, callee, "ValidatedChannelMetadata" if re.search(CH_PRODUCER, callee.id) else "ValidatedEndpointMetadata")
     fr = Q.Frame(f)
     return {r: q.ev_op(fr, t["args"][p[1] - 1]) for r, p in roles.items()}
@@ -173,10 +179,12 @@ def r1_one_producer(ctx):
     R = ctx.rule("C19.R1", "ApiEndpoint::new / ::new_for_types are emitted only by ValidatedEndpointMetadata::to_api_endpoint_fn; the function form, the channel form and both trait forms "
                  "call it with endpoint_name = <item>.sig.ident.to_string(), doc = ExtractedDoc::from_attrs(&<item>.attrs) and metadata validated against that same name/attribute; its result is what "
                  "gets registered; the trait factory hands its real/stub kind unchanged to every item", floor=38)
-    ep = ctx.ep
+    # normalised view: a producer call written inside `opt.map_or_else(.., |m| m.to_api_endpoint_fn(..))` / `opt.map(..)` is a call of
+    # the enclosing function on the Some edge, as with `if let Some(m) = opt` / `match opt`
+    ep = ctx.epn
     prod = ctx.need_fn(ep, R, PRODUCER)
     chprod = ctx.need_fn(ep, R, CH_PRODUCER)
-    q0 = _q(ctx, "ep", inline=False)
+    q0 = _q(ctx, "epn", inline=False)
     # ---- (a) who emits a constructor path of ApiEndpoint
     found = {}
     for f in ep.F.values():
@@ -235,6 +243,7 @@ def r1_one_producer(ctx):
         mp = Q.path_of(meta)
         vre = r"metadata::ChannelMetadata::validate$" if is_ch else r"metadata::EndpointMetadata::validate$"
         inner = _unwrap_opt(meta)
+        inner = Q.strip_plumb(inner, OPT_PLUMB) if inner is not None else None    # `if let Some(m) = metadata` / `metadata.as_ref().map(|m| ..)`
         if inner is not None and inner[0] == "call" and re.search(vre, inner[1]):
             forms.add(("function", is_ch))
             v = inner
@@ -284,8 +293,8 @@ def _registered(ctx, R, key, f, bb, ret):
 
 def _trait_item_wiring(ctx, R, key, f, bb, item, is_ch):
     """self.metadata was validated from the attribute and the name of the same trait item self.f."""
-    ep = ctx.ep
-    q0 = _q(ctx, "ep", inline=False)
+    ep = ctx.epn
+    q0 = _q(ctx, "epn", inline=False)
     m = re.search(r"(api_trait::\w+)", f.local_ty(1))
     adt = m.group(1) if m else None
     sites = []
@@ -339,7 +348,7 @@ def _trait_item_wiring(ctx, R, key, f, bb, item, is_ch):
 
 def _factory_kind(ctx, R, q0):
     """make_api_factory_body hands the same FactoryKind to every item; FactoryKind::X selects ApiEndpointKind::X."""
-    ep = ctx.ep
+    ep = ctx.epn
     mk = ep.one(r"::make_api_factory_body$")
     if mk is None:
         ctx.lost(R, "make_api_factory_body")
@@ -394,8 +403,9 @@ def _factory_kind(ctx, R, q0):
 def r2a_validate(ctx):
     R = ctx.rule("C19.R2a", "every attribute argument reaches the validated metadata: each field of EndpointMetadata (except _dropshot_crate) flows into the same-named field of ValidatedEndpointMetadata "
                  "and nothing else does; ChannelMetadata likewise, with method=GET, content type JSON and no body limit fixed by design", floor=27)
-    ep = ctx.ep
-    q0 = _q(ctx, "ep", inline=False)
+    # normalised view: `x.map(f).unwrap_or(d)`, `x.map_or(d, f)`, `match x {..}` and `r.map_err(f).ok()` / `match r {..}` are one program
+    ep = ctx.epn
+    q0 = _q(ctx, "epn", inline=False)
     tgt = _field_names(ep, VMETA)
     if not tgt:
         ctx.lost(R, "ADT " + VMETA)
@@ -885,10 +895,26 @@ def r5_tables(ctx):
         ls = Q.lits(v)
         emit[key] = sorted(ls)[0] if len(ls) == 1 else None
     variants = [v["name"] for v in ep.adts["util::ValidContentType"]["variants"]] if "util::ValidContentType" in ep.adts else []
+    # dropshot's from_mime_type does nothing but compare strings for equality, branch, iterate over array literals and build values: it is
+    # decided by interpretation (lib_c07.decide_string_tables, on rules/absint.py) on every string it or mime_type() mentions, on every
+    # string the macro can emit and on one string equal to none of those — a match on constants, an if-chain, or `find` over the variants
+    # through mime_type() are the same function.  Only when it leaves that fragment is the table read off its match arms instead.
     accept = {}
-    for key, v, g in _match_table(qd, fmt):
-        if key is not None and v[0] == "agg" and v[2] == "Ok":
-            accept[key] = v[3][0][2] if v[3] and v[3][0][0] == "agg" else "?"
+    try:
+        from . import absint as _A
+        from .lib_c07 import OTHER, decide_string_tables
+        fmt_to = ctx.need_fn(ds, R, r"^api_description::ApiEndpointBodyContentType::mime_type$")
+        dec = decide_string_tables(ds, fmt_to, fmt, "api_description::ApiEndpointBodyContentType")
+        for x in set(dec["from"]) | set(v for v in emit.values() if v):
+            outs = dec["from"].get(x if x in dec["from"] else OTHER) or set()   # a string from_mime_type never mentions behaves as OTHER
+            if x != OTHER and outs and "refused" not in outs:
+                accept[x] = sorted(outs)[0] if len(outs) == 1 else "?%s" % sorted(outs)
+        ctx.notes["C19.R5.from_mime_type_decided_by"] = "interpretation"
+    except _A.LeavesFragment as e:
+        ctx.notes["C19.R5.from_mime_type_decided_by"] = "match arms (not interpretable: %s)" % e
+        for key, v, g in _match_table(qd, fmt):
+            if key is not None and v[0] == "agg" and v[2] == "Ok":
+                accept[key] = v[3][0][2] if v[3] and v[3][0][0] == "agg" else "?"
     back = {}
     for key, v, g in _match_table(qe, ffs):
         if key is not None and v[0] == "agg" and v[2] == "Ok" and v[3] and v[3][0][0] == "agg":
@@ -1061,6 +1087,25 @@ def _emptiness_test(q, fr, g, sbb, st):
     return None
 
 
+def _parse_semver_by_paths(ctx, R, ep, q0, ps):
+    """Fallback of R7's literal check: each emptiness test of parse_semver accepts only past its `empty` edge."""
+    region = [ps] + ep.descendants(ps)
+    chk = {"pre": False, "build": False}
+    for g in region:
+        gfr = Q.Frame(g)
+        for sbb, st in g.switches():
+            et = _emptiness_test(q0, gfr, g, sbb, st)
+            if et is None or et[0] not in chk:
+                continue
+            fld, empty_edge, nonempty_edge = et
+            # accepted only past the `empty` edge, refused on the other (closure of and_then, early return, if/else alike)
+            oks = [bb for bb, i, s in g.aggregates(r"^std::result::Result$", "Ok") if g.edge_dominates(sbb, empty_edge, bb)]
+            errs = [bb for bb, i, s in g.aggregates(r"^std::result::Result$", "Err") if g.edge_dominates(sbb, nonempty_edge, bb)]
+            if oks and errs:
+                chk[fld] = True
+    ctx.check(R, "literal:no-prerelease-or-build", all(chk.values()), "parse_semver refuses literals whose pre-release / build metadata is not EMPTY: %s" % chk, ps)
+
+
 def r7_versions(ctx):
     R = ctx.rule("C19.R7", "version-range syntax -> range kind: `..`=All, `..b`=Until(b), `a..`=From(a), `a..b`=FromUntil(a,b) with operands in source order; literal pairs are refused iff until < earliest; "
                  "each kind emits the same-named ApiEndpointVersions constructor (from_until(earliest, until).unwrap() for FromUntil) with literals as semver::Version::new(major, minor, patch)", floor=14)
@@ -1206,22 +1251,19 @@ def r7_versions(ctx):
     ctx.check(R, "parse:literal-pair-refused-iff-until<earliest", okc, detail, pf)
     # (dropshot's own from_until refuses the same pairs, until < earliest: decided exactly by C05.E3)
     # ---- literals carry no pre-release / build metadata (semver_parts relies on it)
+    # parse_semver is small and its leaves can be stubbed: it is decided by interpretation over every outcome of (parses?, pre-release
+    # empty?, build metadata empty?) — a map_err/and_then chain, a match with early returns, a selected error message are one
+    # program.  Only when it leaves the interpretable fragment are the emptiness tests read off its path facts instead.
     ps = ctx.need_fn(ep, R, r"^metadata::parse_semver$")
-    region = [ps] + ep.descendants(ps)
-    chk = {"pre": False, "build": False}
-    for g in region:
-        gfr = Q.Frame(g)
-        for sbb, st in g.switches():
-            et = _emptiness_test(q0, gfr, g, sbb, st)
-            if et is None or et[0] not in chk:
-                continue
-            fld, empty_edge, nonempty_edge = et
-            # accepted only past the `empty` edge, refused on the other (closure of and_then, early return, if/else alike)
-            oks = [bb for bb, i, s in g.aggregates(r"^std::result::Result$", "Ok") if g.edge_dominates(sbb, empty_edge, bb)]
-            errs = [bb for bb, i, s in g.aggregates(r"^std::result::Result$", "Err") if g.edge_dominates(sbb, nonempty_edge, bb)]
-            if oks and errs:
-                chk[fld] = True
-    ctx.check(R, "literal:no-prerelease-or-build", all(chk.values()), "parse_semver refuses literals whose pre-release / build metadata is not EMPTY: %s" % chk, ps)
+    try:
+        from . import absint as _A
+        rows = Q.decide_parse_semver(ep, ps)
+        wrong = ["parses=%s pre-empty=%s build-empty=%s -> %s" % (c + (o,)) for c, o in rows if o != ("Ok(parsed)" if all(c) else "Err(syn::Error)")]
+        ctx.check(R, "literal:no-prerelease-or-build", len(rows) == 8 and not wrong,
+                  "parse_semver interpreted over %d cases: Ok(the parsed version) iff it parses with empty pre-release and build metadata, Err otherwise; deviating: %s" % (len(rows), wrong or "none"), ps)
+    except _A.LeavesFragment as e:
+        ctx.notes["C19.R7.parse_semver_decided_by"] = "path facts (not interpretable: %s)" % e
+        _parse_semver_by_paths(ctx, R, ep, q0, ps)
     # normalised view: `parse_semver(&s).map(VersionSpecifier::Literal)` is `match parse_semver(&s) { Ok(v) => Ok(Literal(v)), .. }`
     sv = ctx.need_fn(ctx.epn, R, r"^<metadata::VersionSpecifier as syn::parse::Parse>::parse$")
     lits = [bb for bb, i, s in sv.aggregates(r"^metadata::VersionSpecifier$", "Literal")]
@@ -1232,12 +1274,54 @@ def r7_versions(ctx):
 
 
 # =========================================================================== R8
+def _arms_losing_text(a):
+    """Steps of an accumulation given as alternatives (guards, new value): those whose value lacks the accumulated text, or
+    lacks the line although the line is not known to be empty."""
+    bad = []
+    for gs, v in a["arms"]:
+        inside = list(Q.walk(v, guards=False))
+        has_acc = any(a["is_acc"](y) for y in inside)
+        has_line = any(a["is_line"](y) for y in inside)
+        line_empty = any(gt[0] == "call" and re.search(r"is_empty$", gt[1]) and any(a["is_line"](y) for y in Q.walk(gt)) and gv is True for gt, gv in gs)
+        if not has_acc or not (has_line or line_empty):
+            bad.append("%s => %s" % (Q.show_guards(gs), cap(Q.show(v), 90)))
+    return len(a["arms"]), bad
+
+
+def _inplace_rounds_losing_text(q0, rec, header, is_line):
+    """In-place accumulation (`acc.push_str(..)` in the loop body): nothing but appends touches the accumulator (ev_strbuf), so
+    the accumulated text is never dropped; a line is lost iff control can go once round the loop — from the `next()` that yields
+    the line back to it — without passing an append whose value is the line and without taking the edge on which the line is
+    known to be empty."""
+    g, gfr = rec["fn"], rec["frame"]
+    loops = g.loop_blocks()
+    line_sites = [bb for bb, v, il in rec["appends"] if il and any(is_line(y) for y in Q.walk(v, guards=False))]
+    empty_edges = []
+    for sbb, st in g.switches():
+        if sbb not in loops or g.switch_on(sbb)["kind"] != "bool":
+            continue
+        tb, fb = g.bool_edges(sbb)
+        t = q0.ev_op(gfr, st["discr"])
+        for _ in range(6):
+            if t[0] == "unop" and t[1] == "Not":
+                t, tb, fb = t[2], fb, tb
+            else:
+                break
+        if t[0] == "call" and re.search(r"::is_empty$", t[1]) and len(t[2]) == 1 and any(is_line(y) for y in Q.walk(t[2][0], guards=False)):
+            empty_edges.append((sbb, tb))
+    round_trip = g.reachable(list(g.succ(header)), avoid=line_sites, avoid_edges=empty_edges)
+    bad = ["a way round the loop appends nothing of a line that may be non-empty (appends of the line: %d, `line.is_empty()` edges: %d)" % (len(line_sites), len(empty_edges))] \
+        if header in round_trip else []
+    return len([1 for bb, v, il in rec["appends"] if il]), bad
+
+
 def _accumulations(ep, q0, f, fr, term, is_stream):
     """Every accumulation over an iterator inside `term`, whatever the idiom:
       `it.fold(init, |acc, x| step)`                      -> arms of the closure's result, acc = its 1st, x = its 2nd argument
       `let mut acc = init; for x in it { acc = step }`    -> the loop-carried local: arms defined in the loop (they mention the
                                                              local itself) are steps, the others initial values
-    Each: {node, how, stream, inits, arms [(guards, value)], is_acc(term), is_line(term), site}."""
+      `let mut acc = init; for x in it { acc.push_str(x) }` -> a String appended to in place inside one loop driven by the stream
+    Each: {node, how, stream, inits, site, losing() -> (number of steps, [steps losing text])}."""
     out = []
     for x in Q.walk(term):
         if x[0] == "call" and re.search(r"iter::Iterator::fold$", x[1]) and len(x[2]) == 3 and x not in [o["node"] for o in out]:
@@ -1246,8 +1330,10 @@ def _accumulations(ep, q0, f, fr, term, is_stream):
             if cl[0] == "closure" and cl[1] in ep.F:
                 g = ep.F[cl[1]]
                 arms = Q.flat_arms(q0.value(g, 0)[0])
-            out.append({"node": x, "how": "Iterator::fold", "stream": x[2][0], "inits": [x[2][1]], "arms": arms, "site": g or f,
-                        "is_acc": lambda y: y == ("arg", 2), "is_line": lambda y: y == ("arg", 3)})
+            a = {"node": x, "how": "Iterator::fold", "stream": x[2][0], "inits": [x[2][1]], "arms": arms, "site": g or f,
+                 "is_acc": lambda y: y == ("arg", 2), "is_line": lambda y: y == ("arg", 3)}
+            a["losing"] = (lambda a=a: _arms_losing_text(a)) if arms else None
+            out.append(a)
     for mark in sorted(set(y for y in Q.walk(term) if y[0] == "cycle")):
         T = q0.loops.get(mark[1:])
         if T is None or T[0] != "alt" or T in [o["node"] for o in out]:
@@ -1266,8 +1352,25 @@ def _accumulations(ep, q0, f, fr, term, is_stream):
         arms = []
         for g, v in steps:
             arms.extend(Q.flat_arms(v, g))
-        out.append({"node": T, "how": "loop-carried local", "stream": stream or ("unknown", "loop not driven by Iterator::next"), "inits": inits, "arms": arms, "site": f,
-                    "is_acc": lambda y, mark=mark: y == mark, "is_line": lambda y: y[0] == "item" and is_stream(y[1])})
+        a = {"node": T, "how": "loop-carried local", "stream": stream or ("unknown", "loop not driven by Iterator::next"), "inits": inits, "arms": arms, "site": f,
+             "is_acc": lambda y, mark=mark: y == mark, "is_line": lambda y: y[0] == "item" and is_stream(y[1])}
+        a["losing"] = (lambda a=a: _arms_losing_text(a)) if arms else None
+        out.append(a)
+    for x in Q.walk(term):
+        if x[0] == "call" and x[1] == Q.STRBUF and x[4] in q0.strbufs and x not in [o["node"] for o in out]:
+            rec = q0.strbufs[x[4]]
+            g, gfr = rec["fn"], rec["frame"]
+            loops = g.loop_blocks()
+            drv = set()
+            for bb, v, il in rec["appends"]:
+                d = [(Q.strip_plumb(gt[2][0]), gt[4]) for gt, gv in q0.guards_of(gfr, bb)
+                     if gv == "Some" and gt[0] == "call" and len(gt) == 5 and re.search(r"iter::Iterator::next$", gt[1]) and gt[2] and gt[4] in loops] if il else []
+                drv.add(d[-1] if d else None)      # None: an append outside the loop / in a loop not driven by next()
+            stream, header = list(drv)[0] if len(drv) == 1 and None not in drv else (("unknown", "appends not all inside one loop driven by Iterator::next"), None)
+            is_line = lambda y: y[0] == "item" and is_stream(y[1])
+            a = {"node": x, "how": "String appended to in place", "stream": stream, "inits": [rec["init"]], "site": g}
+            a["losing"] = (lambda rec=rec, header=header, is_line=is_line: _inplace_rounds_losing_text(q0, rec, header, is_line)) if header is not None else None
+            out.append(a)
     return out
 
 
@@ -1309,18 +1412,11 @@ def r8_doc_lines(ctx):
         okf = is_stream(a["stream"]) and init_ok and not badd
         detail = "description = %s ; %s over the line stream: %s, starting from a whole line of it: %s%s" % (cap(Q.show(outer)), a["how"], is_stream(a["stream"]), init_ok, (" ; unexpected: %s" % badd) if badd else "")
     ctx.check(R, "doc:description-folds-the-remaining-lines", okf, detail, (f, bb))
-    if len(accs) == 1 and accs[0]["arms"]:
+    if len(accs) == 1 and accs[0]["losing"]:
         a = accs[0]
-        bad_arms = []
-        for gs, v in a["arms"]:
-            inside = list(Q.walk(v, guards=False))
-            has_acc = any(a["is_acc"](y) for y in inside)
-            has_line = any(a["is_line"](y) for y in inside)
-            line_empty = any(gt[0] == "call" and re.search(r"is_empty$", gt[1]) and any(a["is_line"](y) for y in Q.walk(gt)) and gv is True for gt, gv in gs)
-            if not has_acc or not (has_line or line_empty):
-                bad_arms.append("%s => %s" % (Q.show_guards(gs), cap(Q.show(v), 90)))
+        nsteps, bad_arms = a["losing"]()
         ctx.check(R, "doc:fold-keeps-accumulator-and-line", not bad_arms,
-                  "accumulation step (%s) arms: %d; arms losing text: %s" % (a["how"], len(a["arms"]), bad_arms or "none"), a["site"])
+                  "accumulation step (%s) arms: %d; arms losing text: %s" % (a["how"], nsteps, bad_arms or "none"), a["site"])
     else:
         ctx.lost(R, "the accumulation step (fold closure / loop body) of the description")
     # which attributes contribute lines
@@ -1522,4 +1618,18 @@ SELFTEST = [
      "edits": [("dropshot_endpoint/src/doc.rs", "            lines\n                .fold(first, |acc, comment| {\n                    if acc.ends_with('-')\n                        || acc.ends_with('\\n')\n                        || acc.is_empty()\n                    {\n                        // Continuation lines and newlines.\n                        format!(\"{}{}\", acc, comment)\n                    } else if comment.is_empty() {\n                        // Blank lines get a markdown paragraph break (unless\n                        // acc already ends in '\\n' -- see above)\n                        format!(\"{}\\n\\n\", acc)\n                    } else {\n                        // Default to space-separating comment fragments.\n                        format!(\"{} {}\", acc, comment)\n                    }\n                })\n                .trim_end()\n                .to_string()",
                 "            let mut acc = first;\n            while let Some(comment) = lines.next() {\n                acc = if acc.ends_with('-')\n                    || acc.ends_with('\\n')\n                    || acc.is_empty()\n                {\n                    format!(\"{}{}\", acc, comment)\n                } else if comment.is_empty() {\n                    format!(\"{}\\n\\n\", acc)\n                } else {\n                    format!(\"{} \", acc)\n                };\n            }\n            acc.trim_end().to_owned()")],
      "why": "† (loop form) every ordinary continuation line of a doc comment is dropped from the description"},
+    # ---- shapes of the second independent corpus (benign/C19-R5..R8, C10-R8), each with a mutant written on top of the refactored form
+    {'name': 'doc-accumulated-in-place', 'kind': 'benign', 'edits': [('dropshot_endpoint/src/doc.rs', '            lines\n                .fold(first, |acc, comment| {\n                    if acc.ends_with(\'-\')\n                        || acc.ends_with(\'\\n\')\n                        || acc.is_empty()\n                    {\n                        // Continuation lines and newlines.\n                        format!("{}{}", acc, comment)\n                    } else if comment.is_empty() {\n                        // Blank lines get a markdown paragraph break (unless\n                        // acc already ends in \'\\n\' -- see above)\n                        format!("{}\\n\\n", acc)\n                    } else {\n                        // Default to space-separating comment fragments.\n                        format!("{} {}", acc, comment)\n                    }\n                })\n                .trim_end()\n                .to_string()', '            let mut acc = first;\n            for comment in lines {\n                if matches!(acc.chars().next_back(), None | Some(\'-\' | \'\\n\')) {\n                    acc.push_str(&comment);\n                } else if comment.is_empty() {\n                    acc.push_str("\\n\\n");\n                } else {\n                    acc.push(\' \');\n                    acc.push_str(&comment);\n                }\n            }\n            acc.trim_end().to_string()')], 'why': 'behaviour-preserving: the fold written as a `for` loop appending to the accumulator in place (push_str / push), the three-way test as one matches! on the last char'},
+    {'name': 'in-place-loop-drops-line', 'kind': 'mutant', 'expect': ['C19.R8'], 'edits': [('dropshot_endpoint/src/doc.rs', '            lines\n                .fold(first, |acc, comment| {\n                    if acc.ends_with(\'-\')\n                        || acc.ends_with(\'\\n\')\n                        || acc.is_empty()\n                    {\n                        // Continuation lines and newlines.\n                        format!("{}{}", acc, comment)\n                    } else if comment.is_empty() {\n                        // Blank lines get a markdown paragraph break (unless\n                        // acc already ends in \'\\n\' -- see above)\n                        format!("{}\\n\\n", acc)\n                    } else {\n                        // Default to space-separating comment fragments.\n                        format!("{} {}", acc, comment)\n                    }\n                })\n                .trim_end()\n                .to_string()', '            let mut acc = first;\n            for comment in lines {\n                if matches!(acc.chars().next_back(), None | Some(\'-\' | \'\\n\')) {\n                    acc.push_str(&comment);\n                } else if comment.is_empty() {\n                    acc.push_str("\\n\\n");\n                } else {\n                    acc.push(\' \');\n                }\n            }\n            acc.trim_end().to_string()')], 'why': '† (in-place form) every ordinary continuation line of a doc comment is dropped from the description'},
+    {'name': 'in-place-loop-clears-accumulator', 'kind': 'mutant', 'expect': ['C19.R8'], 'edits': [('dropshot_endpoint/src/doc.rs', '            lines\n                .fold(first, |acc, comment| {\n                    if acc.ends_with(\'-\')\n                        || acc.ends_with(\'\\n\')\n                        || acc.is_empty()\n                    {\n                        // Continuation lines and newlines.\n                        format!("{}{}", acc, comment)\n                    } else if comment.is_empty() {\n                        // Blank lines get a markdown paragraph break (unless\n                        // acc already ends in \'\\n\' -- see above)\n                        format!("{}\\n\\n", acc)\n                    } else {\n                        // Default to space-separating comment fragments.\n                        format!("{} {}", acc, comment)\n                    }\n                })\n                .trim_end()\n                .to_string()', '            let mut acc = first;\n            for comment in lines {\n                if matches!(acc.chars().next_back(), None | Some(\'-\' | \'\\n\')) {\n                    acc.push_str(&comment);\n                } else if comment.is_empty() {\n                    acc.clear();\n                    acc.push_str("\\n\\n");\n                } else {\n                    acc.push(\' \');\n                    acc.push_str(&comment);\n                }\n            }\n            acc.trim_end().to_string()')], 'why': '† (in-place form) a blank line discards everything accumulated before it'},
+    {'name': 'builder-calls-chained', 'kind': 'benign', 'edits': [('dropshot_endpoint/src/metadata.rs', '        let tags = self\n            .tags\n            .iter()\n            .map(|tag| {\n                quote_spanned! {span=> .tag(#tag) }\n            })\n            .collect::<Vec<_>>();\n', '        let tags = self.tags.iter().map(|tag| {\n            quote_spanned! {span=> .tag(#tag) }\n        });\n'), ('dropshot_endpoint/src/metadata.rs', '            #fn_call\n            #summary\n            #description\n            #(#tags)*\n            #visible\n            #deprecated\n            #request_body_max_bytes\n', '            #fn_call\n            #(#builder_calls)*\n'), ('dropshot_endpoint/src/metadata.rs', '        let fn_call = match kind {\n', '        let builder_calls: Vec<TokenStream> = summary\n            .into_iter()\n            .chain(description)\n            .chain(tags)\n            .chain(visible)\n            .chain(deprecated)\n            .chain(request_body_max_bytes)\n            .collect();\n\n        let fn_call = match kind {\n')], 'why': 'behaviour-preserving: the six optional builder-call interpolations chained into one Vec and emitted by one repetition (same tokens, same order)'},
+    {'name': 'chained-builder-calls-omit-deprecated', 'kind': 'mutant', 'expect': ['C19.R2b'], 'edits': [('dropshot_endpoint/src/metadata.rs', '        let tags = self\n            .tags\n            .iter()\n            .map(|tag| {\n                quote_spanned! {span=> .tag(#tag) }\n            })\n            .collect::<Vec<_>>();\n', '        let tags = self.tags.iter().map(|tag| {\n            quote_spanned! {span=> .tag(#tag) }\n        });\n'), ('dropshot_endpoint/src/metadata.rs', '            #fn_call\n            #summary\n            #description\n            #(#tags)*\n            #visible\n            #deprecated\n            #request_body_max_bytes\n', '            #fn_call\n            #(#builder_calls)*\n'), ('dropshot_endpoint/src/metadata.rs', '        let fn_call = match kind {\n', '        let _ = &deprecated;\n        let builder_calls: Vec<TokenStream> = summary\n            .into_iter()\n            .chain(description)\n            .chain(tags)\n            .chain(visible)\n            .chain(request_body_max_bytes)\n            .collect();\n\n        let fn_call = match kind {\n')], 'why': '† (chained form) `deprecated = true` is left out of the chain and never reaches the ApiEndpoint'},
+    {'name': 'parse-semver-as-match', 'kind': 'benign', 'edits': [('dropshot_endpoint/src/metadata.rs', 'fn parse_semver(v: &syn::LitStr) -> syn::Result<semver::Version> {\n    v.value()\n        .parse::<semver::Version>()\n        .map_err(|e| {\n            syn::Error::new_spanned(v, format!("expected semver: {}", e))\n        })\n        .and_then(|s| {\n            if s.pre == semver::Prerelease::EMPTY {\n                Ok(s)\n            } else {\n                Err(syn::Error::new_spanned(\n                    v,\n                    String::from(\n                        "semver pre-release string is not supported here",\n                    ),\n                ))\n            }\n        })\n        .and_then(|s| {\n            if s.build == semver::BuildMetadata::EMPTY {\n                Ok(s)\n            } else {\n                Err(syn::Error::new_spanned(\n                    v,\n                    String::from("semver build metadata is not supported here"),\n                ))\n            }\n        })\n}\n\n', 'fn parse_semver(v: &syn::LitStr) -> syn::Result<semver::Version> {\n    let parsed = match v.value().parse::<semver::Version>() {\n        Ok(parsed) => parsed,\n        Err(e) => {\n            return Err(syn::Error::new_spanned(v, format!("expected semver: {}", e)));\n        }\n    };\n    let unsupported = if !parsed.pre.is_empty() {\n        Some("semver pre-release string is not supported here")\n    } else if !parsed.build.is_empty() {\n        Some("semver build metadata is not supported here")\n    } else {\n        None\n    };\n    match unsupported {\n        Some(msg) => Err(syn::Error::new_spanned(v, msg)),\n        None => Ok(parsed),\n    }\n}\n\n')], 'why': 'behaviour-preserving: map_err/and_then chain written as a match with early return, then one selected error message; `== EMPTY` as is_empty()'},
+    {'name': 'match-form-accepts-build-metadata', 'kind': 'mutant', 'expect': ['C19.R7'], 'edits': [('dropshot_endpoint/src/metadata.rs', 'fn parse_semver(v: &syn::LitStr) -> syn::Result<semver::Version> {\n    v.value()\n        .parse::<semver::Version>()\n        .map_err(|e| {\n            syn::Error::new_spanned(v, format!("expected semver: {}", e))\n        })\n        .and_then(|s| {\n            if s.pre == semver::Prerelease::EMPTY {\n                Ok(s)\n            } else {\n                Err(syn::Error::new_spanned(\n                    v,\n                    String::from(\n                        "semver pre-release string is not supported here",\n                    ),\n                ))\n            }\n        })\n        .and_then(|s| {\n            if s.build == semver::BuildMetadata::EMPTY {\n                Ok(s)\n            } else {\n                Err(syn::Error::new_spanned(\n                    v,\n                    String::from("semver build metadata is not supported here"),\n                ))\n            }\n        })\n}\n\n', 'fn parse_semver(v: &syn::LitStr) -> syn::Result<semver::Version> {\n    let parsed = match v.value().parse::<semver::Version>() {\n        Ok(parsed) => parsed,\n        Err(e) => {\n            return Err(syn::Error::new_spanned(v, format!("expected semver: {}", e)));\n        }\n    };\n    let unsupported = if !parsed.pre.is_empty() {\n        Some("semver pre-release string is not supported here")\n    } else {\n        None\n    };\n    match unsupported {\n        Some(msg) => Err(syn::Error::new_spanned(v, msg)),\n        None => Ok(parsed),\n    }\n}\n\n')], 'why': '† (match form) a literal with build metadata is accepted; semver_parts then silently drops it from the emitted version'},
+    {'name': 'mime-lookup-by-find', 'kind': 'benign', 'edits': [('dropshot/src/api_description.rs', '        match mime_type {\n            CONTENT_TYPE_OCTET_STREAM => Ok(Self::Bytes),\n            CONTENT_TYPE_JSON => Ok(Self::Json),\n            CONTENT_TYPE_URL_ENCODED => Ok(Self::UrlEncoded),\n            CONTENT_TYPE_MULTIPART_FORM_DATA => Ok(Self::MultipartFormData),\n            _ => Err(mime_type.to_string()),\n        }', '        [Self::Bytes, Self::Json, Self::UrlEncoded, Self::MultipartFormData]\n            .into_iter()\n            .find(|candidate| candidate.mime_type() == mime_type)\n            .ok_or_else(|| mime_type.to_string())')], 'why': 'behaviour-preserving: from_mime_type defined through mime_type() by `find` over the variants instead of a match on the four constants'},
+    {'name': 'find-form-forgets-multipart', 'kind': 'mutant', 'expect': ['C19.R5'], 'edits': [('dropshot/src/api_description.rs', '        match mime_type {\n            CONTENT_TYPE_OCTET_STREAM => Ok(Self::Bytes),\n            CONTENT_TYPE_JSON => Ok(Self::Json),\n            CONTENT_TYPE_URL_ENCODED => Ok(Self::UrlEncoded),\n            CONTENT_TYPE_MULTIPART_FORM_DATA => Ok(Self::MultipartFormData),\n            _ => Err(mime_type.to_string()),\n        }', '        [Self::Bytes, Self::Json, Self::UrlEncoded]\n            .into_iter()\n            .find(|candidate| candidate.mime_type() == mime_type)\n            .ok_or_else(|| mime_type.to_string())')], 'why': '† (find form) the macro accepts and emits multipart/form-data, ApiEndpoint::new panics on it'},
+    {'name': 'producer-called-in-map-or-else', 'kind': 'benign', 'edits': [('dropshot_endpoint/src/endpoint.rs', '            let construct = if let Some(metadata) = metadata {\n                metadata.to_api_endpoint_fn(\n                    &dropshot,\n                    &name_str,\n                    &ApiEndpointKind::Regular(name),\n                    &doc,\n                )\n            } else {\n                quote! {\n                    unreachable!()\n                }\n            };\n', '            let construct = metadata.as_ref().map_or_else(\n                || quote! { unreachable!() },\n                |metadata| {\n                    metadata.to_api_endpoint_fn(\n                        &dropshot,\n                        &name_str,\n                        &ApiEndpointKind::Regular(name),\n                        &doc,\n                    )\n                },\n            );\n')], 'why': 'behaviour-preserving: `if let Some(m) = metadata {..} else {..}` written as metadata.as_ref().map_or_else(.., |m| ..)'},
+    {'name': 'map-or-else-form-doc-from-nothing', 'kind': 'mutant', 'expect': ['C19.R1'], 'edits': [('dropshot_endpoint/src/endpoint.rs', '            let construct = if let Some(metadata) = metadata {\n                metadata.to_api_endpoint_fn(\n                    &dropshot,\n                    &name_str,\n                    &ApiEndpointKind::Regular(name),\n                    &doc,\n                )\n            } else {\n                quote! {\n                    unreachable!()\n                }\n            };\n', '            let construct = metadata.as_ref().map_or_else(\n                || quote! { unreachable!() },\n                |metadata| {\n                    metadata.to_api_endpoint_fn(\n                        &dropshot,\n                        &name_str,\n                        &ApiEndpointKind::Regular(name),\n                        &ExtractedDoc::from_attrs(&[]),\n                    )\n                },\n            );\n')], 'why': '† (closure form) function-form endpoints lose their doc comment: trait and function forms document differently'},
+    {'name': 'versions-default-by-map-or', 'kind': 'benign', 'edits': [('dropshot_endpoint/src/metadata.rs', '                versions: versions\n                    .map(|h| h.into_inner())\n                    .unwrap_or(VersionRange::All),\n            })\n        } else {\n            unreachable!', '                versions: versions.map_or(VersionRange::All, ParseWrapper::into_inner),\n            })\n        } else {\n            unreachable!')], 'why': 'behaviour-preserving: map(..).unwrap_or(All) written as map_or(All, ParseWrapper::into_inner)'},
+    {'name': 'map-or-form-ignores-versions', 'kind': 'mutant', 'expect': ['C19.R2a'], 'edits': [('dropshot_endpoint/src/metadata.rs', '                versions: versions\n                    .map(|h| h.into_inner())\n                    .unwrap_or(VersionRange::All),\n            })\n        } else {\n            unreachable!', '                versions: versions.map_or(VersionRange::All, |_| VersionRange::All),\n            })\n        } else {\n            unreachable!')], 'why': '† (map_or form) a declared `versions` range is replaced by All'},
 ]
